@@ -5,6 +5,7 @@ import (
 	"go/token"
 	"go/types"
 	"regexp"
+	"sort"
 	"strings"
 
 	"golang.org/x/tools/go/ssa"
@@ -56,8 +57,53 @@ func ruleFreshGroupNode(rule string) RuleFn {
 				c.Check(good, rule, nm+" returns the node it built from its own tag", "the local literal", nm+" can return "+an.Norm(v)+": a node that was not built from this field's tag (its soft/flatten flags and group name belong to another declaration)", r, nil)
 			})
 			c.Floor(rule, "success returns of "+nm, n, 1)
+			if nm == "dig.newParamGroupedSlice" {
+				// ... and with a graph node of its own, with its own orders map: every successful return has
+				// registered the node (c.newGraphNode(&pg, pg.orders)), and the orders map is the one this call made.
+				// A node or an orders map shared with an earlier consumer survives the roll-back of the registration
+				// that created it and then points at whatever node takes the freed slot
+				var regs []ssa.Instruction
+				an.Instrs(fn, func(in ssa.Instruction) {
+					if k, ok := in.(ssa.CallInstruction); ok && k.Common().IsInvoke() && k.Common().Method.Name() == "newGraphNode" {
+						regs = append(regs, in)
+					}
+				})
+				okReg := len(regs) > 0
+				var at ssa.Instruction
+				an.Instrs(fn, func(in ssa.Instruction) {
+					r, ok := in.(*ssa.Return)
+					if !ok || isErrorExit(r) {
+						return
+					}
+					if hit, _ := an.PathTo(fn, nil, an.IsInstr(r), an.NewGates().AddInstr(regs...)); hit != nil {
+						okReg, at = false, r
+					}
+				})
+				ownOrders := true
+				for _, st := range storesToFieldNamed(fn, "orders") {
+					if _, isMake := an.Resolve(st.Val).(*ssa.MakeMap); !isMake {
+						ownOrders, at = false, st
+					}
+				}
+				c.Check(okReg && ownOrders, rule, nm+" registers a graph node of its own for every consumer", "newGraphNode on every successful path; orders map made here", "a value-group parameter can be accepted without a graph node of its own (or with the orders map of another consumer): the shared node outlives the roll-back of the registration that created it, its stale index then names whatever node is appended next - a fabricated self-edge rejects an acyclic registration, or accepts it in one order of a block and not in the other", at, nil)
+			}
 		}
 	}
+}
+
+// storesToFieldNamed: stores into a field called name of a local struct of fn.
+func storesToFieldNamed(fn *ssa.Function, name string) []*ssa.Store {
+	var out []*ssa.Store
+	an.Instrs(fn, func(in ssa.Instruction) {
+		st, ok := in.(*ssa.Store)
+		if !ok {
+			return
+		}
+		if fa, ok := st.Addr.(*ssa.FieldAddr); ok && an.FieldName(fa.X.Type(), fa.Field) == name {
+			out = append(out, st)
+		}
+	})
+	return out
 }
 
 // ruleIgnoreUnexportedFirst (G-ignore-first).
@@ -784,6 +830,37 @@ func ruleDotLeaves(rule string) RuleFn {
 				min = 2
 			}
 			c.Floor(rule, "dot.Node constructions in "+sp.fn, nodes, min)
+		}
+		// what is reported is what is delivered: the type of the primary entry of resultGrouped.DotResult is the type
+		// under which resultGrouped.Extract submits the members (its undecorated submitGroupedValue calls), and the key
+		// connectionVisitor.Visit registers. A flattened group reported as []T is a value nobody can ask for
+		if dr, ex := c.P.Func("(dig.resultGrouped).DotResult"), c.P.Func("(dig.resultGrouped).Extract"); dr != nil && ex != nil {
+			submitted := map[string]bool{}
+			an.Instrs(ex, func(in ssa.Instruction) {
+				if k, ok := in.(ssa.CallInstruction); ok && k.Common().IsInvoke() && k.Common().Method.Name() == "submitGroupedValue" && len(k.Common().Args) == 3 {
+					if t := an.Norm(an.Resolve(k.Common().Args[1])); !strings.HasPrefix(t, "p:rt.As[") {
+						submitted[t] = true
+					}
+				}
+			})
+			reported := ""
+			an.Instrs(dr, func(in ssa.Instruction) {
+				al, isA := in.(*ssa.Alloc)
+				if isA && isConstruction(al) && an.IsNamed(al.Type(), an.ModPath+"/internal/dot", "Node") {
+					if v := fieldStore(al, "Type"); v != nil {
+						if got := an.Norm(an.Resolve(v)); !strings.HasPrefix(got, "p:rt.As[") {
+							reported = got
+						}
+					}
+				}
+			})
+			var ks []string
+			for k := range submitted {
+				ks = append(ks, k)
+			}
+			sort.Strings(ks)
+			// one type expression for every way the members are submitted (flattened or not), and it is the reported one
+			c.Check(len(submitted) == 1 && submitted[reported], rule, "(dig.resultGrouped).DotResult reports the type the members are submitted under", reported, "the introspection entry of a value-group result has type "+reported+" while Extract submits the members under "+strings.Join(ks, " / ")+": ProvideInfo.Outputs and the DOT picture show a value (a flattened group as []T instead of T) that is never provided", nil, nil)
 		}
 		// a value group has no optional flag (dig rejects `optional` on a group): its dot.Param says Optional = false
 		if fn := c.Fn(rule, "(dig.paramGroupedSlice).DotParam"); fn != nil {
